@@ -1,16 +1,19 @@
 #!/usr/bin/env python3
 """copy the confirmed seeded changes from the sub-agents' scratch directories into /verif/seeded/<id>/ with meta.json"""
-import json, os, shutil
-ver = {r["id"]: r for r in json.load(open("/tmp/seedverify.json"))}
-for pid in sorted(os.listdir("/tmp/mut")):
-    d = os.path.join("/tmp/mut", pid, "out")
+import json, os, shutil, sys
+SRC = sys.argv[1] if len(sys.argv) > 1 else "/tmp/mut"
+TAG = sys.argv[2] if len(sys.argv) > 2 else "m"
+VER = sys.argv[3] if len(sys.argv) > 3 else "/tmp/seedverify.json"
+ver = {r["id"]: r for r in json.load(open(VER))}
+for pid in sorted(os.listdir(SRC)):
+    d = os.path.join(SRC, pid, "out")
     if not os.path.isdir(d):
         continue
     for m in sorted(os.listdir(d)):
         md = os.path.join(d, m)
         if not (os.path.isdir(md) and m.startswith("m")):
             continue
-        sid = "%s-%s" % (pid, m)
+        sid = "%s-%s%s" % (pid, TAG, m[1:])
         v = ver.get(sid, {})
         dst = os.path.join("/verif/seeded", sid)
         os.makedirs(dst, exist_ok=True)
